@@ -176,7 +176,7 @@ RULE = ('integer-valued rasters up to 10x10 (every dtype Numba takes: float64/32
         'sqrt2, ..) so that targets sit just inside / outside the halo, max_distance >= the raster diagonal (single-chunk '
         'fallback) and inf; metrics EUCLIDEAN and MANHATTAN; 0 among target_values with coordinates at the origin; 12x16 rasters with 1-2 cell chunks '
         'and a 4-5 cell halo; two rasters of equal shape/chunking but different cell size computed together with dask.compute; '
-        'a deterministic halo-edge family (cell sizes 0.2, 0.1, 0.01, 0.3, max_distance = k*cellsize for k in 1..7 as float product and '
+        'rasters far from the origin with a finite max_distance at or above the true extent (single-block path expected); a deterministic halo-edge family (cell sizes 0.2, 0.1, 0.01, 0.3, max_distance = k*cellsize for k in 1..7 as float product and '
         'as decimal literal, one target and a probe exactly k cells apart across a chunk boundary); schedulers threads / synchronous; within the stated domain '
         '(halo in cells <= raster height/width). Dask and NumPy are both run (two of proximity/allocation/direction per case, '
         'rotating). A case is non-trivial when it has a target, a non-target cell and more than one block. In addition the '
@@ -596,6 +596,12 @@ def check_cases(ctx, cases, pool, use_model=True):
             if any(k.endswith('/mutated') for k in e):
                 ctx.violation('oracle', 'the %s call changed the caller\'s raster: %r' % (which, e), dict(case, backend=which))
         bad = False
+        if case.get('expect_single_block'):
+            for name in case['only']:
+                nb = (rd.get(name) or {}).get('numblocks')
+                if nb is not None and list(nb) != [1, 1]:
+                    ctx.violation('oracle', 'max_distance %r reaches the raster extent but Dask %s did not take the single-block '
+                                  'path (result has %r blocks)' % (case['max_distance'], name, nb), dict(case, function=name))
         if case.get('probe') and 'proximity' in gn:
             check_probe(ctx, case, gn)
         for name in case['only']:
@@ -902,6 +908,39 @@ def check_probe(ctx, case, gn):
                       'max_distance %r' % (r, c, v, d, md), dict(case, cell=[r, c], numpy=v, expected=float('nan')))
 
 
+def far_origin_family(rng, full=False):
+    """rasters far from the origin / not symmetric about 0 (UTM-like), x != y spacing, either orientation, and a FINITE
+    max_distance at or above the true corner-to-corner extent: the documented single-block path must run (Dask == NumPy, no
+    exception, one block).  The value exactly equal to the float64 diagonal is avoided (the library keeps the diagonal in
+    float32, which may round up)."""
+    origins = [(5e5, 4.1e6), (-3e6, -7e5), (1e3, 250.0), (5e5, -7e5), (-3e6, 250.0), (1e3, 4.1e6)]
+    steps = [(1.0, 30.0), (30.0, 1.0), (0.25, 1.0), (30.0, 0.25), (1.0, 0.25), (0.25, 30.0)]
+    out = []
+    combos = [(o, st, d) for o in origins for st in steps for d in (0, 1, 2)] if full else \
+        [(origins[i], steps[(i + rng.randrange(6)) % 6], i % 3) for i in range(6)]
+    for i, ((x0, y0), (sx, sy), desc) in enumerate(combos):
+        h, w = rng.randint(3, 7), rng.randint(3, 7)
+        xs = [x0 + sx * j for j in range(w)]
+        ys = [y0 + sy * j for j in range(h)]
+        if desc >= 1:
+            ys = ys[::-1]
+        if desc == 2:
+            xs = xs[::-1]
+        metric = ['EUCLIDEAN', 'MANHATTAN'][i % 2]
+        dx, dy = abs(xs[-1] - xs[0]), abs(ys[-1] - ys[0])
+        diag = c06.f32(dx + dy if metric == 'MANHATTAN' else math.sqrt(dx * dx + dy * dy))
+        up = float(np.nextafter(np.float32(diag), np.float32(np.inf))) * (1 + 1e-6)
+        md = [up, 1.5 * diag, 10.0 * diag, 1e9][(i + (i // 4)) % 4]
+        g = c06.gen_layout(rng, h, w, 'sparse')
+        out.append(dict(fn='dask', layout='far-origin-single-block', metric=metric, data=[[float(v) for v in row] for row in g],
+                        dtype='float64', xs=xs, ys=ys, cdtype='float64', ykind='far', xkind='far', tv=[], mode='default',
+                        max_distance=md, scheduler='threads', only=[['proximity'], ['allocation'], ['direction']][i % 3],
+                        no_model=True, expect_single_block=True,
+                        chunks=[compositions_random(rng, h, ['small', 'ones', 'any'][i % 3]),
+                                compositions_random(rng, w, ['any', 'small', 'ones'][i % 3])]))
+    return out
+
+
 WINDOW_CASE = dict(fn='dask', layout='heuristic-window-dependence', metric='EUCLIDEAN',
                    data=[[1., 6., 0., -3., 2., 6.], [2., 0., 5., 0., 0., 0.], [7., 4., 0., 0., 0., 0.]], dtype='int8',
                    xs=[-4, -3, -2, -1, 0, 1], ys=[0, 2, 4], cdtype='float64', ykind='asc', xkind='asc', tv=[], mode='default',
@@ -1027,6 +1066,7 @@ def run(ctx):
         tc = theme_cases(ctx)
         check_cases(ctx, tc + [dict(WINDOW_CASE)], pool)
         fam = halo_edge_family(ctx.rng, per_config_k=2) if ctx.quick() else halo_edge_family(ctx.rng)
+        fam += far_origin_family(ctx.rng, full=not ctx.quick())
         check_cases(ctx, fam, pool)
         check_pairs(ctx, [p + ('reverse',) for p in pair_cases(ctx)[:1]], pool)
     finally:
@@ -1044,6 +1084,7 @@ def search(ctx):
             check_cases(ctx, bigint_cases(ctx) + cases, pool, use_model=False)
             check_pairs(ctx, pair_cases(ctx), pool)
             check_derived(ctx, derived_cases(ctx) + derived_cases(ctx), pool)
+            check_cases(ctx, far_origin_family(ctx.rng, full=True), pool, use_model=False)
             check_cases(ctx, halo_edge_family(ctx.rng, all_boundaries=True), pool, use_model=False)
         finally:
             pool.close()
